@@ -22,7 +22,7 @@ TECHNIQUE = 'reference-model monitor (independent DAQmx encoder + byte-level ora
 RULE = ('random DAQmx files from vlib.daqmx.gen_daqmx; non-trivial = >=2 scalers in the file and >=1 value; distinct = '
         '(digital, widths, buffer lengths, per-channel (raw, scaler types/buffers/offsets), per-segment (endian, nchunks, metadata kind))')
 ASSUMPTIONS = ['an acquisition buffer no scaler refers to has zero rows', 'scaled chunk streams are compared with slices of the eager scaled result']
-REQUIRED = ['files_with_channel_switched_off', 'scalers_decoded', 'windows_compared', 'chunk_streams_compared', 'cuts_checked', 'contract:receiver.append_scaler_data']
+REQUIRED = ['scalers_decoded_memmap', 'files_with_channel_switched_off', 'scalers_decoded', 'windows_compared', 'chunk_streams_compared', 'cuts_checked', 'contract:receiver.append_scaler_data']
 N = {'quick': 1500, 'thorough': 100000}
 
 
@@ -33,6 +33,8 @@ def gen_cases(tier, seed):
 
 def shard_setup(ctx):
     contracts.install()
+    ctx.tmp = util.TempDir('c11')
+    ctx.tmpdir = ctx.tmp.__enter__()
     ctx.reach = None
     if True:
         import nptdms.daqmx as dq
@@ -45,6 +47,7 @@ def shard_setup(ctx):
 
 def shard_teardown(ctx):
     contracts.drain(ctx)
+    ctx.tmp.__exit__()
     if ctx.reach:
         ctx.reach.stop()
         ctx.reach.report(ctx)
@@ -119,6 +122,27 @@ def run_case(case, ctx):
                     ctx.violation('decode/typed-channel-data', {'chan': ch})
             except Exception as ex:
                 ctx.violation('eager-scaled-raises/%s' % util.exc_key(ex), {'chan': ch, 'file': f.describe()})
+    # ---- A': the same decode with memory-mapped receivers (eager and lazy), against the same byte-level oracle
+    for mode in ('eager', 'lazy'):
+        try:
+            mf = (TdmsFile.read if mode == 'eager' else TdmsFile.open)(io.BytesIO(blob), memmap_dir=ctx.tmpdir)
+            try:
+                for ch in f.chans:
+                    c = mf['G'][ch['name']]
+                    r = c.read_data(scaled=False)
+                    for s in ch['scalers']:
+                        got = r[s['id']] if isinstance(r, dict) else r
+                        ctx.count('scalers_decoded_memmap')
+                        if not eq(got, f.expected(ch, s)):
+                            ctx.violation('decode-memmap/%s/%s' % (mode, kind), {'chan': ch, 'scaler': s, 'got': C.short(C.image(got)),
+                                                                               'want': C.short(C.image(f.expected(ch, s))), 'file': f.describe()})
+                    if ch['name'] in eager_scaled and not eq(c[:], eager_scaled[ch['name']]):
+                        ctx.violation('decode-memmap/%s/scaled-differs' % mode, {'chan': ch, 'file': f.describe()})
+            finally:
+                mf.close() if mode == 'lazy' else None
+                del mf
+        except Exception as ex:
+            ctx.violation('decode-memmap/%s/raises/%s' % (mode, util.exc_key(ex)), {'exc': util.exc_detail(ex), 'file': f.describe()})
     # ---- B + C: lazy windows and chunk streams
     try:
         with TdmsFile.open(io.BytesIO(blob)) as lf:
